@@ -140,6 +140,30 @@ def cli_case(draw):
             "variant_build": draw(st.sampled_from(["asan", "dbg", "ndebug"]))}
 
 
+def cli_materialise(case, sb, out, v=None):
+    """Turn a cli_case into real arguments (the placeholders become files in the sandbox); returns (args, image size)."""
+    s = {"variant": "acorn", "tracks": 40, "spt": 10, "fill": {"kind": "rand", "seed": case["seed"]},
+         "volumes": [{"label": None, "title": b"CLI", "cycle": 1, "boot": 0, "total": 400,
+                      "cats": [[{"name": b"X", "dir": ord("$"), "locked": False, "load": 0, "exec": 0,
+                                 "length": 600, "start": 2, "body": {"kind": "text", "seed": 1}}]]}]}
+    d = disc.build_surface(s)
+    img = sb.file("a.ssd", d)
+    img2 = sb.file("b.ssd", d)
+    odd = {"IMG": img, "IMG2": img2, "OUT": out}
+    if any(a in ODD_FILES for a in case["argv"]):
+        if v is not None:
+            v.classes.append("cli-odd-file")
+        odd.update({"IMGDIR": sb.mkdir("dir.ssd"), "MISSING": os.path.join(sb.path, "missing.ssd"),
+                    "NOEXT": sb.file("noext", d), "BADEXT": sb.file("a.xyz", d),
+                    "BAREGZ": sb.file("gz/bare.gz", containers.gz(d, level=6)),
+                    "UPPEREXT": sb.file("u/A.SSD", d), "EMPTYSSD": sb.file("e/empty.ssd", b""),
+                    "DOTONLY": sb.file("d/.ssd", d), "GZDIR": sb.mkdir("dir.ssd.gz")})
+    args = [odd.get(a, a) for a in case["argv"]]
+    args = [a.encode("latin-1", "replace").decode("latin-1") for a in args]
+    args = [a for a in args if "\0" not in a]
+    return args, len(d)
+
+
 # ---------------------------------------------------------------- image construction + structure-aware mutation
 
 QUIRK = {"size0": {"size_code": 0}, "size2": {"size_code": 2}, "size3": {"size_code": 3}, "dup": {"dup": True},
@@ -362,25 +386,8 @@ class C07(CheckBase):
                 argv = [dfs] + (["--verbose"] if case["verbose"] else []) + ["--file", img] + cmd
                 v.classes.append("ext-" + case["ext"] + (".gz" if case["gz"] else ""))
             else:
-                s = {"variant": "acorn", "tracks": 40, "spt": 10, "fill": {"kind": "rand", "seed": case["seed"]},
-                     "volumes": [{"label": None, "title": b"CLI", "cycle": 1, "boot": 0, "total": 400,
-                                  "cats": [[{"name": b"X", "dir": ord("$"), "locked": False, "load": 0, "exec": 0,
-                                             "length": 600, "start": 2, "body": {"kind": "text", "seed": 1}}]]}]}
-                d = disc.build_surface(s)
-                img = sb.file("a.ssd", d)
-                img2 = sb.file("b.ssd", d)
-                fsize = len(d)
-                odd = {"IMG": img, "IMG2": img2, "OUT": out}
-                if any(a in ODD_FILES for a in case["argv"]):
-                    v.classes.append("cli-odd-file")
-                    odd.update({"IMGDIR": sb.mkdir("dir.ssd"), "MISSING": os.path.join(sb.path, "missing.ssd"),
-                                "NOEXT": sb.file("noext", d), "BADEXT": sb.file("a.xyz", d),
-                                "BAREGZ": sb.file("gz/bare.gz", containers.gz(d, level=6)),
-                                "UPPEREXT": sb.file("u/A.SSD", d), "EMPTYSSD": sb.file("e/empty.ssd", b""),
-                                "DOTONLY": sb.file("d/.ssd", d), "GZDIR": sb.mkdir("dir.ssd.gz")})
-                argv = [dfs] + [odd.get(a, a) for a in case["argv"]]
-                argv = [a.encode("latin-1", "replace").decode("latin-1") for a in argv]
-                argv = [a for a in argv if "\0" not in a]
+                args, fsize = cli_materialise(case, sb, out, v)
+                argv = [dfs] + args
                 v.classes.append("cli")
             r = runtool.run([a.encode("latin-1") if any(ord(ch) > 127 for ch in a) else a for a in argv], sb.path)
             v.evaluations += 1
